@@ -70,3 +70,10 @@ Fixpoint mismatches {A} (run : A -> list Z) (cases : list (A * list Z)) (i : N) 
     if list_eq_dec Z.eq_dec got expect then mismatches run r (i + 1)
     else (i, got) :: mismatches run r (i + 1)
   end.
+
+(* pack direction: field numbers given directly (any value of the field's type) *)
+Definition pack_case (l : layout) (vs : list N) : list Z :=
+  match place l with
+  | Ok ps => zs (pack_placed (size_bytes l) ps vs)
+  | _ => [-9]%Z
+  end.
